@@ -77,3 +77,74 @@ contract(f"{SER}::ListOf.unpack", "varlenH-list.bounded-read", vars={"P": P("var
              "ghost": {"off0": "offset"},
              "invariants": ["off0 <= offset", "offset <= len(data)", "len(result) == it_i"],
              "havoc": {"_": None}}})
+
+# =====================================================================================================================
+# Part 2: the receive path is total
+
+from contracts.common import TASK_STUBS  # noqa: E402
+
+NET = "ipv8/peerdiscovery/network.py"
+PEER = OBJ("ipv8/peer.py::Peer", last_response=REAL)
+HANDLER = CALLABLE("handler", returns=ANY, raises=("Exception",))
+
+COMMUNITY = OBJ(f"{COM}::Community", network=OBJ(f"{NET}::Network"), _prefix=BYTES_N(22),
+                decode_map=ANYLIST(256, OPT(HANDLER)), logger=LOGGER())
+
+contract(f"{COM}::Community.on_packet", "on_packet.total+prefix-gate",
+         vars={"self": COMMUNITY, "source": ADDRESS, "data": BYTES, "warn": BOOL},
+         call="self.on_packet((source, data), warn)", raises=[],
+         on_effect={"handler": ["args[1][:22] == self._prefix", "args[1] == data", "args[0] == source"]},
+         stubs={**TASK_STUBS,
+                f"{NET}::Network.get_verified_by_address": {"returns": OPT(PEER), "note": "total; own contract in C12"}},
+         covers=["len(calls('handler')) == 1", "len(calls('handler')) == 0"],
+         note="no datagram makes on_packet raise; handlers are entered only behind the 22-byte prefix comparison and "
+              "whatever a handler raises (any Exception) is contained")
+
+EPB = "ipv8/messaging/interfaces/endpoint.py"
+UDP = "ipv8/messaging/interfaces/udp/endpoint.py"
+
+# a listener whose on_packet satisfies its contract (total): the three shipped listener classes are verified separately
+LISTENER = OBJ(f"{EPB}::EndpointListener", on_packet=CALLABLE("on_packet", returns=None, raises=()))
+
+
+def endpoint(cls=f"{UDP}::UDPEndpoint", **extra):
+    return OBJ(cls, _listeners=EXPR("[L1, L2, L3][:n_all]"), _prefix_map=EXPR("{PFX: [L3, L1][:n_pfx]} if n_pfx else {}"),
+               prefixlen=EXPR("22"), _running=BOOL, _transport=OPT(EFFECT("transport", sendto={})), bytes_down=INT,
+               _logger=LOGGER(), **extra)
+
+
+_LV = {"L1": LISTENER, "L2": LISTENER, "L3": LISTENER, "PFX": BYTES_N(22)}
+contract(f"{EPB}::Endpoint.notify_listeners", "notify_listeners.every-listener-gets-it",
+         vars={**_LV, "self": endpoint(), "source": ADDRESS, "data": BYTES},
+         instances=[{"n_all": a, "n_pfx": p} for a in range(4) for p in range(3)],
+         requires=["self._running"],
+         call="self.notify_listeners((source, data))", raises=[],
+         ensures=["len(calls('on_packet')) == (n_pfx if (n_pfx and data[:22] == PFX) else n_all)",
+                  "all(e.args[0] == (source, data) for e in calls('on_packet'))"],
+         note="every listener selected by the prefix map (or all listeners) is handed the datagram; listener lists of "
+              "length 0..3 are enumerated (the loop is a sequence of _deliver_later calls, each under its own contract)")
+
+contract(f"{EPB}::Endpoint._deliver_later", "deliver_later.guard",
+         vars={**_LV, "L": LISTENER, "self": endpoint(), "source": ADDRESS, "data": BYTES},
+         instances=[{"n_all": 2, "n_pfx": 1}],
+         call="self._deliver_later(L, (source, data))", raises=[],
+         on_effect={"on_packet": ["self._running",
+                                  "data[:22] == PFX or L is L1 or L is L2"]},
+         note="a packet is delivered only while the endpoint is open and the listener (or its prefix) is still registered")
+
+contract(f"{UDP}::UDPEndpoint.datagram_received", "datagram_received.total",
+         vars={**_LV, "self": endpoint(), "host": STR, "port": INT, "data": BYTES},
+         instances=[{"n_all": 2, "n_pfx": 1}],
+         call="self.datagram_received(data, (host, port))", raises=[],
+         on_effect={"on_packet": ["self._running"]},
+         ensures=["implies(not old(self._running), len(calls('on_packet')) == 0)"],
+         note="whatever bytes arrive, the transport callback returns normally")
+
+# snapshot loader: never raises, whatever the bytes
+contract(f"{NET}::Network.load_snapshot", "load_snapshot.total",
+         vars={"self": OBJ(f"{NET}::Network", graph_lock=EXPR("nullcontext()"), _all_addresses=EXPR("{}")),
+               "snapshot": BYTES},
+         call="self.load_snapshot(snapshot)", raises=[],
+         loops={f"{NET}::Network.load_snapshot#0": {"invariants": ["offset >= 0"], "havoc": {"address": None, "previous_offset": None},
+                                                   "havoc_fields": []}},
+         note="'prefer returning no peers over throwing an Exception'")
